@@ -138,6 +138,9 @@ func exposeAlertsReadOnlyRule(o *Ob) {
 		hides = append(hides, st)
 		base := st.Addr.(*ssa.FieldAddr).X
 		_, fresh := base.(*ssa.Alloc)
+		if ia, ok := base.(*ssa.IndexAddr); ok && localValueSlot(ia) {
+			fresh = true
+		}
 		o.Check(fresh, "expose-hide-copy", "the end time must be hidden in the copy, is hidden in "+e.X(fn, base), st)
 		for _, a := range alts {
 			v := e.X(fn, a.V)
@@ -156,6 +159,20 @@ func exposeAlertsReadOnlyRule(o *Ob) {
 	// one copy per alert, made in the iteration
 	var app ssa.Instruction
 	checkCopy := func(v ssa.Value, at ssa.Instruction) {
+		// the copy as the iteration's slot of a list of values made here (one allocation for all copies)
+		if ia, ok := v.(*ssa.IndexAddr); ok && localValueSlot(ia) {
+			l := e.LoopOf(at)
+			o.Check(l != nil && l.Blocks[ia.Block().Index] && e.X(fn, ia.Index) == "i", "expose-copy-shared", "the exposed alerts do not each get a slot of their own: "+clip(e.X(fn, ia)), at)
+			n := 0
+			for _, r := range *ia.Referrers() {
+				if st, ok := r.(*ssa.Store); ok && st.Addr == ssa.Value(ia) {
+					n++
+					o.Check(regexpMatch(`p0\[i\](\.Alert)?`, e.X(fn, st.Val)), "expose-copy-of", "the copy must be of the alert of the iteration, is of "+e.X(fn, st.Val), st)
+				}
+			}
+			o.Check(n == 1, "expose-copy-init", "the copy is not initialised from the alert", at)
+			return
+		}
 		al, isA := v.(*ssa.Alloc)
 		if !o.Check(isA, "expose-copy", "each exposed alert must be a copy of its own, is "+e.X(fn, v), at) {
 			return
@@ -258,4 +275,18 @@ func storedAlertImmutableRule(o *Ob) {
 	}
 	o.Check(n >= 5, "few", "implausibly few writes of alert fields found: "+itoa(n), nil)
 	o.MinSites(5)
+}
+
+// localValueSlot: the address of an element of a list of struct values that this function made.
+func localValueSlot(ia *ssa.IndexAddr) bool {
+	ms, ok := ia.X.(*ssa.MakeSlice)
+	if !ok {
+		return false
+	}
+	sl, ok := ms.Type().Underlying().(*types.Slice)
+	if !ok {
+		return false
+	}
+	_, isStruct := sl.Elem().Underlying().(*types.Struct)
+	return isStruct
 }
